@@ -8,7 +8,7 @@
    time steps (a negative time step is rejected by the machine, so histories are
    time-monotone) -- unbounded.  A reachable state is [c_run cfg c_init evs].
    "Displaced" = a loading future that a Set replaced in the map (ghost list c_displaced). *)
-From Got Require Import Base Cache CacheProofs CacheSteps CacheStepsProofs.
+From Got Require Import Base Cache CacheProofs CacheSteps CacheStepsProofs CacheStepsFull CacheStepsFullProofs.
 Local Open Scope Z_scope.
 
 (* single flight:
@@ -126,16 +126,19 @@ Proof. vm_compute. repeat split. Qed.
    time.Since and its decision in the same critical section (convenience of the proof: the
    atomic Load is placed at the decision step; no counterexample exists in the explored space).
 
-   FULL STATEMENT (all five operations):
-     cache_calls_linearize : forall cfg progs sched, c_cfg_ok cfg ->
+   FULL STATEMENT (all five operations), as first written for the ghost of CacheSteps.v:
+     forall cfg progs sched, c_cfg_ok cfg ->
        let s := cs_run CsFixed cfg (cs_init progs) sched in cs_bad s = false -> cs_mis s = false.
-   PROVED below for programs of Load / Get2 / worker calls (cs_progs_covered), every number of
-   threads, keys and calls, every schedule.  Left out: Set (the atomic machine starts "the
-   first queued job of a KEY", the real channel is FIFO over all jobs: after a Set displaced a
-   job whose sendJob is still pending the two orders differ, so the ghost worker events do not
-   match although no caller-visible result is affected) and removeRotted (needs the
-   "rotted = absent" simulation of C05 on top).  For these the mismatch flag is evaluated on
-   every explored schedule: 0 mismatches in > 2,400,000 enumerated schedules (stream call-steps). *)
+   For THAT ghost it is FALSE once Set is allowed (cache_key_ghost_refuted below, a 6-thread
+   schedule outside the enumerated space): the ghost starts "the first queued job of the
+   received job's KEY" (Cache.v's CStart k, with the job enqueued at the Load's map write), the
+   real channel is FIFO in the order of the sendJob steps; after a Set displaced a job whose
+   sendJob is pending the two differ and cs_mis is raised although no caller-visible result
+   differs.  cache_calls_linearize_partial (programs of Load / Get2 / worker calls) stays as it was.
+   The full theorem cache_calls_linearize (end of this file) is stated for the machine of
+   models/CacheStepsFull.v: the same thread steps, the ghost starts the received job by future
+   id (refined atomic machine cx_step = c_step + CxStartF), and the memory map is related to the
+   ghost map by the C05 simulation "rotted = absent" instead of equality (removeRotted). *)
 Theorem cache_steps_ghost_is_atomic_history :
   forall md cfg progs sched,
   let s := cs_run md cfg (cs_init progs) sched in
@@ -197,3 +200,137 @@ Theorem cache_get2_stall_orig_refuted :
   cs_mis s' = false /\ cs_bad s' = false /\ (In (0%nat, CsGet2 0, CsRVal 0 0, OImmediate) (cs_log s') -> False).
 Proof. vm_compute. split; [repeat split|]. split; [reflexivity|]. split; [reflexivity|]. intros H. repeat (destruct H as [H|H]; [discriminate H|]). exact H. Qed.
 Print Assumptions cache_get2_stall_orig_refuted.
+
+
+(* ================================================================== ALL FIVE OPERATIONS
+   models/CacheStepsFull.v: cf_step executes exactly the thread steps of CacheSteps.v in the
+   Fixed order (cs_tstep CsFixed, cs_go, the tick of cs_step); the only difference is ghost:
+   the worker's channel receive of job f is the refined atomic event CxStartF f ("job f leaves
+   the queue wherever it stands") instead of Cache.v's CStart (key of f).  cx_step is c_step
+   plus that event; Cache.v is unchanged.
+
+   cache_refined_ghost_same_steps: under every schedule the two machines have the same memory,
+   mutex owner, per-thread (program, pc, call), tick flag cs_bad and per completed call
+   (thread, call, result): the step-by-step correspondence with /repo checked for cs_step
+   (stream call-steps) is a correspondence for cf_step. *)
+Theorem cache_refined_ghost_same_steps :
+  forall cfg progs sched,
+  cs_real (cs_run CsFixed cfg (cs_init progs) sched) = cs_real (cf_s (cf_run cfg (cf_init progs) sched)).
+Proof. exact cf_same_steps. Qed.
+Print Assumptions cache_refined_ghost_same_steps.
+
+(* THE REFINEMENT FOR Load, Get2, Set, worker (Finish) AND removeRotted (Sweep): every
+   configuration accepted by WithExpire, every number of threads, keys and calls, every program
+   over the five operations (no coverage hypothesis), every schedule whose clock ticks stay
+   outside the windows (cs_bad = false; the windows are those of the partial theorem plus Set's
+   time.Now() .. map write and removeRotted's time.Since .. decision, cs_in_window).
+   cs_mis = false: the future class / job-created flag returned by every Load and the
+   Immediate-vs-Await decision and awaited future of every Get2 equal the output of the call's
+   atomic event in the atomic history cf_xevs -- for a job-creating Load at its decision step,
+   for a Get2 / job-less Load at some instant between its first and its last step; Set's atomic
+   event is emitted at its map write, the sweep's at its Unlock, both inside the call.  The
+   ghost state is the run of the refined atomic machine on that history.
+   Invariant cf_inv: ghost map and memory map agree per key up to "no entry or a rotted one"
+   (cf_mrel, two-way: mid-sweep the memory has lost entries the ghost still has, after a tick
+   during a sweep the ghost loses entries the memory keeps), memory keys unique, the entries
+   removeRotted still has to visit are current (cf_ents), per-thread invariants stable under
+   every environment step cf_ext (a Set may replace a loading entry: only readers holding the
+   mutex rely on it). *)
+Theorem cache_calls_linearize :
+  forall cfg progs sched,
+  c_cfg_ok cfg ->
+  let s := cf_run cfg (cf_init progs) sched in
+  cs_bad (cf_s s) = false ->
+  cs_mis (cf_s s) = false /\ cs_g (cf_s s) = cx_run cfg c_init (rev (cf_xevs s)).
+Proof. exact cf_refines. Qed.
+Print Assumptions cache_calls_linearize.
+
+(* the pair an awaiting Get2 returns: whenever wg.Done() of future x has run (the guard of the
+   step after wg.Wait, which returns cs_fdone of the memory), memory and ghost hold the same
+   completed (value, error, stamp) for x *)
+Theorem cache_get2_awaited_pair :
+  forall cfg progs sched x,
+  c_cfg_ok cfg ->
+  let s := cf_run cfg (cf_init progs) sched in
+  cs_bad (cf_s s) = false -> cs_complete (cf_s s) x = true ->
+  cs_fdone (cs_m (cf_s s)) x = cs_fdone (cs_g (cf_s s)) x /\ cs_fdone (cs_m (cf_s s)) x <> None.
+Proof. exact cf_await_pair. Qed.
+Print Assumptions cache_get2_awaited_pair.
+
+(* WHAT THE REFINED GHOST PRESERVES.  Every history xevs of the refined atomic machine is
+   simulated by the history evs = cx_trans .. xevs of Cache.v: evs has the same Load / Get2 /
+   Set / loader-return / sweep / time-step events in the same order with the same outputs
+   (c_vis_outputs = cx_vis_outputs: all events but the job starts, a CFinish identified by the
+   future it completes rather than by its rank among the running jobs); in evs jobs are only
+   started earlier (CxStartF f becomes as many CStart (key f) as needed to reach f, nothing if f
+   runs already).  The final states agree on clock, arena of futures, map and displaced list;
+   Cache.v's queue is a subset of the refined queue, every job running in the refined machine
+   runs in Cache.v.  Since this holds for every prefix, every state-based theorem of C04 / C05
+   that reads only c_now / c_futs / c_map / c_displaced and the outputs of CLoad / CGet2 / CSet /
+   CFinish / CSweep (cache_single_flight (1) (4) (5) (6), cache_future_immutable,
+   cache_result_is_one_invocation up to the rank, the first two clauses of
+   cache_returned_future_has_requested_key, the theorems of C05 but for the queue / running clause
+   of cache_stale_window_first_load) transfers to the ghost states of
+   cache_calls_linearize; statements about WHEN a job starts (c_queue / c_running, CStart) hold
+   for evs, not for the order in which the workers really received the jobs. *)
+Theorem cache_refined_history_is_cache_history :
+  forall cfg xevs,
+  let evs := cx_trans cfg c_init c_init xevs in
+  let sx := cx_run cfg c_init xevs in
+  let sc := c_run cfg c_init evs in
+  c_vis_outputs cfg c_init evs = cx_vis_outputs cfg c_init xevs /\
+  c_now sc = c_now sx /\ c_futs sc = c_futs sx /\ c_map sc = c_map sx /\ c_displaced sc = c_displaced sx /\
+  (forall f, In f (c_queue sc) -> In f (c_queue sx)) /\
+  (forall f, In f (c_running sx) -> In f (c_running sc)).
+Proof. exact cx_simulated_by_cache. Qed.
+Print Assumptions cache_refined_history_is_cache_history.
+
+(* both chained: all five operations linearize in a history of Cache.v itself *)
+Theorem cache_calls_linearize_in_cache_history :
+  forall cfg progs sched,
+  c_cfg_ok cfg ->
+  let s := cf_run cfg (cf_init progs) sched in
+  cs_bad (cf_s s) = false ->
+  let xevs := rev (cf_xevs s) in
+  let evs := cx_trans cfg c_init c_init xevs in
+  let sc := c_run cfg c_init evs in
+  cs_mis (cf_s s) = false /\
+  c_vis_outputs cfg c_init evs = cx_vis_outputs cfg c_init xevs /\
+  c_now sc = c_now (cs_g (cf_s s)) /\ c_futs sc = c_futs (cs_g (cf_s s)) /\
+  c_map sc = c_map (cs_g (cf_s s)) /\ c_displaced sc = c_displaced (cs_g (cf_s s)) /\
+  (forall f, In f (c_running (cs_g (cf_s s))) -> In f (c_running sc)).
+Proof. exact cf_refines_cache. Qed.
+Print Assumptions cache_calls_linearize_in_cache_history.
+
+(* the ghost of CacheSteps.v (start by key) does NOT extend to Set, and non-vacuity of the full
+   theorem.  E = 1000.  Thread 0: Load 0 creates future 0 and parks before sendJob; thread 1:
+   Set 0 replaces it by future 1; 1500 later thread 2: Load 0 finds future 1 stale, creates
+   future 2 and sends it; the worker (thread 3) receives future 2 -- the by-key ghost starts
+   future 0, the first queued job of key 0: mismatch -- and completes it; thread 0 sends future
+   0, the worker completes it; thread 4: Get2 0 awaits future 2; 5000 later thread 5 sweeps the
+   rotted entry.  Both machines return the same results (cs_real, cs_log); the refined ghost
+   raises no mismatch, its history maps to the Cache.v history shown (CStart 0 twice, then the
+   SECOND running job of key 0 returns first). *)
+Theorem cache_key_ghost_refuted :
+  let cfg := {| c_normE := 1000; c_errE := 400 |} in
+  let progs := [[CsLoad 0]; [CsSet 0 3 0]; [CsLoad 0]; [CsFinish 9 0; CsFinish 8 0]; [CsGet2 0]; [CsSweep]] in
+  let r := map CsRun in
+  let sched := r [0;0;0;0]%nat ++ r [1;1;1;1;1;1]%nat ++ [CsTick 1500] ++ r [2;2;2;2;2;2;2;2]%nat ++ r [3;3;3;3]%nat ++
+               r [0]%nat ++ r [3;3;3;3]%nat ++ r [4;4;4;4;4;4;4;4;4]%nat ++ [CsTick 5000] ++ r [5;5;5;5;5;5;5;5;5;5;5;5]%nat in
+  let s1 := cs_run CsFixed cfg (cs_init progs) sched in
+  let s2 := cf_run cfg (cf_init progs) sched in
+  c_cfg_ok cfg /\
+  (cs_bad s1 = false /\ cs_mis s1 = true) /\
+  (cs_bad (cf_s s2) = false /\ cs_mis (cf_s s2) = false) /\
+  cs_real s1 = cs_real (cf_s s2) /\
+  rev (map cs_real_log (cs_log s1)) =
+    [(1%nat, CsSet 0 3 0, CsRNone); (2%nat, CsLoad 0, CsRFut 1 true); (3%nat, CsFinish 9 0, CsRFin 2);
+     (0%nat, CsLoad 0, CsRFut 0 true); (3%nat, CsFinish 8 0, CsRFin 0); (4%nat, CsGet2 0, CsRVal 0 0); (5%nat, CsSweep, CsRNone)] /\
+  rev (cf_xevs s2) =
+    [CxE (CLoad 0); CxE (CSet 0 3 0); CxE (CAdvance 1500); CxE (CLoad 0); CxStartF 2; CxE (CFinish 0 0 9 0);
+     CxStartF 0; CxE (CFinish 0 0 8 0); CxE (CAdvance 5000); CxE CSweep] /\
+  cx_trans cfg c_init c_init (rev (cf_xevs s2)) =
+    [CLoad 0; CSet 0 3 0; CAdvance 1500; CLoad 0; CStart 0; CStart 0; CFinish 0 1 9 0; CFinish 0 0 8 0; CAdvance 5000; CSweep] /\
+  c_map (cs_m (cf_s s2)) = [] /\ c_map (cs_g (cf_s s2)) = [].
+Proof. split; [unfold c_cfg_ok; cbn; lia|]. vm_compute. repeat split. Qed.
+Print Assumptions cache_key_ghost_refuted.
